@@ -202,6 +202,44 @@ def tokenizer_part(ck: Check, n):
     return len(res)
 
 
+SPLICE_DRIVER = """
+fn harness::splice(_1: Vec<T>, _2: &L, _3: f64) -> (VecDeque<Occurence>, Vec<T>) {
+    let mut _0: (VecDeque<Occurence>, Vec<T>);
+    let mut _4: &Vec<T>;
+    let mut _5: &[T];
+    let mut _6: std::slice::Iter<'_, T>;
+    let mut _7: NumTracker;
+    let mut _8: VecDeque<Occurence>;
+    let mut _9: &mut Vec<T>;
+    let mut _10: ();
+
+    bb0: {
+        _4 = &_1;
+        _5 = <Vec<T> as Deref>::deref(move _4) -> [return: bb1, unwind continue];
+    }
+
+    bb1: {
+        _6 = core::slice::<impl [T]>::iter(copy _5) -> [return: bb2, unwind continue];
+    }
+
+    bb2: {
+        _7 = track_numbers::<L, &T, std::slice::Iter<'_, T>>(move _6, copy _2, copy _3) -> [return: bb3, unwind continue];
+    }
+
+    bb3: {
+        _8 = copy (_7.0: VecDeque<Occurence>);
+        _9 = &mut _1;
+        _10 = NumTracker::replace::<T>(move _7, move _9) -> [return: bb4, unwind continue];
+    }
+
+    bb4: {
+        _0 = (move _8, move _1);
+        return;
+    }
+}
+"""
+
+
 COLLECT_DRIVER = """
 fn harness::collect_tokens(_1: &mut Tokenize<'_>) -> Vec<BasicToken> {
     let mut _0: Vec<BasicToken>;
@@ -273,45 +311,39 @@ def splice_part(ck: Check, job):
     from mirsym.intrinsics import iter_next, opt_is_some
     ex.static_dispatch['Replace>::replace'] = replace_model
     lang = H.lang_value(ex, L.type_name)
-    res = ex.explore('replace_numbers_in_stream', [vec_of_tokens(), lang, thr])
+    if 'harness::splice' not in ex.mir.functions:
+        ex.mir.add_synthetic(SPLICE_DRIVER)
+    res = ex.explore('harness::splice', [vec_of_tokens(), lang, thr])
     ck.absorb(ex)
-    exb = make_executor(ck, st.assm)
-    exb.shape_ignore = {'Occurence'}
-    batch = H.merged_result(run_scanner(ck, exb, L, st.slots, thr))
-    ck.absorb(exb)
-    nb = B64(batch.len)
-    occ = [o.fields for o in batch.elems if o is not UNINIT and o is not None]
     from .c14 import values_equal
     bad = [('panic: %s %s at %s' % (p.kind, p.msg, p.where), c) for p, c in zip(ex.panics, conds_of(ex.panics))]
+    some_replaced = []
     for r in res:
-        out = r.ret
+        matches, out = r.ret
         n_out = concrete_int(out.len)
-        if n_out is None:
-            raise Inconclusive('symbolic output length on one path')
+        n_m = concrete_int(matches.len)
+        if n_out is None or n_m is None:
+            raise Inconclusive('symbolic lengths on one path')
         flat = []
         mades = []
-        structural = True
         for e in out.elems[:n_out]:
-            if isinstance(e, Choice):
-                ident = e.alts[0][1].ident
-            else:
-                ident = e.ident
+            ident = e.alts[0][1].ident if isinstance(e, Choice) else e.ident
             if isinstance(ident, tuple) and ident and ident[0] == 'made':
                 flat.extend(ident[1])
                 mades.append((ident[1], e))
             else:
                 flat.append(ident)
-        structural = flat == list(range(st.ntok)) and all(ids for ids, _ in mades)
-        conds = [z3.BoolVal(structural), nb == len(mades)]
+        structural = flat == list(range(st.ntok)) and all(ids for ids, _ in mades) and len(mades) == n_m
+        conds = [z3.BoolVal(bool(structural))]
         if structural:
             for q, (ids, e) in enumerate(mades):
-                if q < len(occ):
-                    conds.append(z3.And(B64(occ[q][0]) == ids[0], B64(occ[q][1]) == ids[-1] + 1, values_equal(e.text, occ[q][2])))
-                else:
-                    conds.append(z3.BoolVal(False))
-            # kept tokens are the very input tokens (same alternatives): identity by slot index is structural already
-        bad.append(('the output stream is not the input with exactly the reported occurrences replaced (ids %r)' % (flat,),
-                    z3.And(pc(r), z3.Not(z3.And(*conds)))))
+                o = matches.elems[q].fields
+                conds.append(z3.And(B64(o[0]) == ids[0], B64(o[1]) == ids[-1] + 1, values_equal(e.text, o[2])))
+        bad.append(('the output stream is not the input with exactly the reported occurrences replaced (ids %r, %d occurrences)'
+                    % (flat, n_m), z3.And(pc(r), z3.Not(z3.And(*conds)))))
+        if n_m:
+            some_replaced.append(pc(r))
+    nb_cover = z3.Or(*some_replaced) if some_replaced else z3.BoolVal(False)
 
     def on_cex(m, fired=None):
         toks = st.concrete(m)
@@ -336,7 +368,7 @@ def splice_part(ck: Check, job):
         return {'key': {'lang': code, 'kind': 'splice'}, 'reproduced': got != exp or not kept_same, 'replay': rep,
                 'what': '%s thr=%s: stream %r is rewritten as %r, expected %r' % (code, thr, [t[0] for t in toks], got, exp)}
     ck.prove_none('%s:splice:thr=%s' % (code, thr), st.assm, bad, on_cex, lambda m, c: None)
-    ck.cover('%s:splice:thr=%s:replaced' % (code, thr), st.assm + [z3.UGE(nb, 1)], lambda m: {'lang': code, 'tokens': [t[0] for t in st.concrete(m)]})
+    ck.cover('%s:splice:thr=%s:replaced' % (code, thr), st.assm + [nb_cover], lambda m: {'lang': code, 'tokens': [t[0] for t in st.concrete(m)]})
 
 
 # ------------------------------------------------------------------------------------------------ (c) no number -> identical
